@@ -183,7 +183,15 @@ func c13WholeBody(t *testing.T, s *sim.Scn, o *sim.Outcome) {
 			}
 		}
 	}()
-	time.Sleep(stopAt)
+	if hang := time.Duration(s.Cfg["mempoolhang"]) * time.Millisecond; hang > 0 && hang < stopAt {
+		// the execution layer's mempool query hangs (and honours its context) from a little before the stop
+		time.Sleep(stopAt - hang)
+		agg.sn.Exec.StallGetTxs()
+		o.Count("mempool-query-hangs-at-stop", 1)
+		time.Sleep(hang)
+	} else {
+		time.Sleep(stopAt)
+	}
 	mu.Lock()
 	stopped = time.Now()
 	mu.Unlock()
@@ -336,6 +344,9 @@ func c13WholeGen(r *rand.Rand, tier string) *sim.Scn {
 		"node": 1, "nfull": r.Int64N(3), "bt": []int64{250, 500, 1000, 2000}[r.IntN(4)], "dat": []int64{1000, 3000, 6000}[r.IntN(3)], "run": run, "stop": r.Int64N(run + 1),
 		"lazy": r.Int64N(2), "maxpending": []int64{0, 0, 2, 5}[r.IntN(4)], "dalat": []int64{0, 5, 50, 300}[r.IntN(4)], "execlat": []int64{0, 0, 20, 400}[r.IntN(4)],
 	}}
+	if r.IntN(4) == 0 {
+		s.Cfg["mempoolhang"] = int64(50 + r.IntN(3000))
+	}
 	if r.IntN(3) == 0 {
 		s.Cfg["future"] = int64(1000 + r.IntN(60000))
 		if r.IntN(2) == 0 {
